@@ -268,6 +268,11 @@ func genVerifyBigMutations(h *H, n int) {
 		for k, input := range cuts {
 			run(input, tags[k])
 		}
+		// every byte-string field of every packet lengthened (full 1 MiB chunks included)
+		grown, gtags := growFields(h.rng, a.wire)
+		for k, input := range grown {
+			run(input, gtags[k])
+		}
 		if ob, ok := splitObjects(b.wire); ok && len(ob) >= 3 {
 			// header and first packet of a, the later packets of b (same key, same version, matching positions)
 			oa, _ := splitObjects(a.wire)
@@ -379,7 +384,7 @@ func init() {
 		},
 	}
 	campaigns["C07"] = campaign{
-		rule: "cases: detached signing (both versions, one-shot and streamed with random Write splits, lengths incl. 0 and 1 MiB) compared with the model and round-tripped through VerifyDetached / VerifyDetachedReader (fragmenting data-with-EOF reader); and (message, signature file) pairs derived from genuine ones by message bit flips, signature bit flips/truncations, header transplants between signatures by the same key, attached-as-detached, structure-aware mutation; ground truth: success only for a message the key signed in detached mode.",
+		rule: "cases: detached signing (both versions, one-shot and streamed with random Write splits, lengths incl. 0 and 1 MiB) compared with the model and round-tripped through VerifyDetached / VerifyDetachedReader (fragmenting data-with-EOF reader); and (message, signature file) pairs derived from genuine ones by message bit flips, signature bit flips/truncations, header transplants between signatures by the same key, attached-as-detached, structure-aware mutation; ground truth: success only for a message the key signed in detached mode; genuine armored signatures with the frame damaged in one place (marker bit, brand edit on one side, type words of another mode on one side or both, missing footer) through Dearmor62VerifyDetached / -Reader: refused.",
 		gen: func(h *H) {
 			genSignRoundtrip(h, []string{"det"})
 			n := 400
@@ -387,6 +392,8 @@ func init() {
 				n = 8000
 			}
 			genDetachedMutations(h, n)
+			// the armored entry points refuse every damaged frame around a genuine detached signature
+			genArmoredFrames(h, map[string]bool{"det": true, "att": true}, 2)
 		},
 	}
 }
